@@ -559,3 +559,58 @@ def build(spec):
 def clone(H):
     """independent clone that does not go through the library's copy(): pickle round trip"""
     return pickle.loads(pickle.dumps(H))
+
+
+def min_eig(M):
+    """smallest eigenvalue of the symmetric part of M; -inf when M is not finite or the solver gives up (never an exception)"""
+    M = np.asarray(M, float)
+    if M.size == 0:
+        return 0.0
+    if not np.all(np.isfinite(M)):
+        return float("-inf")
+    try:
+        return float(np.linalg.eigvalsh((M + M.T) / 2).min())
+    except np.linalg.LinAlgError:
+        return float("-inf")
+
+
+def small_edit(H, no_duplicates=False):
+    """One in-place structural edit of H through the public mutators (returns a description, or None when nothing applies).
+    Used by the oracles of read-only functions: they evaluate, edit the *same object*, and evaluate again, so that nothing
+    a function remembered about the earlier state can survive unnoticed. For Hypergraph / DiHypergraph the edit keeps the
+    number of nodes and of edges."""
+    if isinstance(H, xgi.SimplicialComplex):
+        ns = list(H.nodes)
+        for tri in itertools.combinations(ns, 3):  # a new triangle brings new faces with it
+            if not H.has_simplex(list(tri)):
+                H.add_simplex(list(tri))
+                return ("add_simplex",) + tri
+        for a, b in itertools.combinations(ns, 2):
+            if not H.has_simplex([a, b]):
+                H.add_simplex([a, b])
+                return ("add_simplex", a, b)
+        if ns:
+            H.add_simplex([ns[0], "__new__"])
+            return ("add_simplex", ns[0], "__new__")
+        return None
+    if isinstance(H, xgi.DiHypergraph):
+        for e, (t, h) in H.edges.dimembers(dtype=dict).items():
+            for v in H.nodes:
+                if v not in t:
+                    H.add_node_to_edge(e, v, "in")
+                    return ("add_node_to_edge", e, v, "in")
+        return None
+    mem = {e: frozenset(m) for e, m in H.edges.members(dtype=dict).items()}
+    have = set(mem.values())
+    for e, m in mem.items():
+        for v in H.nodes:
+            if v not in m and not (no_duplicates and (m | {v}) in have):
+                H.add_node_to_edge(e, v)
+                return ("add_node_to_edge", e, v)
+    for e, m in mem.items():
+        if len(m) >= 2:
+            for v in sorted(m, key=repr):
+                if not (no_duplicates and (m - {v}) in have):
+                    H.remove_node_from_edge(e, v, remove_empty=False)
+                    return ("remove_node_from_edge", e, v)
+    return None
